@@ -85,6 +85,13 @@ func (l *queryLog) searchMemory(
 			// Go on and try to match anyway.
 		}
 
+		// The ignore settings may have changed since the entry was added, so
+		// check them again, the same way it's done for the entries from the
+		// files.
+		if l.isIgnored(e.QHost) || (e.client != nil && e.client.IgnoreQueryLog) {
+			return true
+		}
+
 		if params.match(e) {
 			entries = append(entries, e)
 		}
